@@ -6,6 +6,7 @@ import (
 	"fmt"
 	"os"
 	"runtime/pprof"
+	"strings"
 	"time"
 
 	zs "github.com/evanphx/json-patch/v5/zzvsync"
@@ -50,6 +51,39 @@ func init() {
 		}
 		if len(args) > 0 && args[0] == "dump" {
 			fmt.Println(d)
+		}
+	}
+}
+
+func init() {
+	extraCommands["residual"] = func(args []string) {
+		w := newAPIWorld()
+		zs.SetController(&seqCtl{})
+		zs.Reset()
+		prev := globalsDump()
+		for _, i := range w.menu {
+			w.outcome(i)
+			zs.Reset()
+			d := globalsDump()
+			if d != prev {
+				a, b := strings.Split(prev, "\n"), strings.Split(d, "\n")
+				for k := range a {
+					if k < len(b) && a[k] != b[k] {
+						x, y := a[k], b[k]
+						j := 0
+						for j < len(x) && j < len(y) && x[j] == y[j] {
+							j++
+						}
+						lo := j - 60
+						if lo < 0 {
+							lo = 0
+						}
+						fmt.Printf("%s:\n   - %s\n   + %s\n", w.calls[i].Name, clip(x[lo:], 160), clip(y[lo:], 160))
+						break
+					}
+				}
+			}
+			prev = d
 		}
 	}
 }
